@@ -6,18 +6,26 @@
 (*    (GenericContextProvider._set_context_state), written like the code   *)
 (*    is MEANT to work: marks are set at the MdibVersion of the commit.    *)
 (***************************************************************************)
-EXTENDS Integers, Sequences, FiniteSets, TLC, Json
+EXTENDS Integers, Sequences, FiniteSets, TLC, Json, SequencesExt
 
 CONSTANTS Descr,      \* context descriptors, e.g. {"pc", "lc"}
           CH,         \* pool of context state handles
           MaxCalls
 
-VARIABLES ctx, mver, calls, hist
-vars == <<ctx, mver, calls, hist>>
+VARIABLES ctx, mver, calls, hist,
+          ord        \* table order of the context states: a commit removes the states it writes and re-adds them at the
+                     \* end (observation only - it feeds the situation labels, no action depends on it)
+vars == <<ctx, mver, calls, hist, ord>>
 view == <<ctx, mver, calls>>
 
 NoC == [present |-> FALSE, d |-> "none", assoc |-> "No", bind |-> -1, unbind |-> -1]
-Init == ctx = [c \in CH |-> NoC] /\ mver = 0 /\ calls = 0 /\ hist = <<>>
+Init == ctx = [c \in CH |-> NoC] /\ mver = 0 /\ calls = 0 /\ hist = <<>> /\ ord = <<>>
+Reorder(cx, touched) == SelectSeq(ord, LAMBDA c : c \notin touched /\ cx[c].present) \o SetToSeq({c \in touched : cx[c].present})
+Pos(c) == IF \E k \in DOMAIN ord : ord[k] = c THEN CHOOSE k \in DOMAIN ord : ord[k] = c ELSE 0
+\* a completely disassociated state of d stands behind the associated one (it was updated after the association)
+DisBehindAssoc(d) == \E a \in CH, x \in CH : /\ ctx[a].present /\ ctx[a].d = d /\ ctx[a].assoc = "Assoc"
+                                              /\ ctx[x].present /\ ctx[x].d = d /\ ctx[x].assoc = "Dis" /\ ctx[x].unbind # -1
+                                              /\ Pos(x) > Pos(a)
 
 Free == {c \in CH : ~ctx[c].present}
 Of(d) == {c \in CH : ctx[c].present /\ ctx[c].d = d}
@@ -38,8 +46,10 @@ SetLocation(d) ==
          \* set_location disassociates through the transaction: every state that is not yet fully disassociated
          cx == [x \in CH |-> IF ctx[x].present /\ ctx[x].d = d /\ (ctx[x].assoc # "Dis" \/ ctx[x].unbind = -1)
                              THEN [ctx[x] EXCEPT !.assoc = "Dis", !.unbind = IF @ = -1 THEN v ELSE @] ELSE ctx[x]]
-     IN /\ ctx' = [cx EXCEPT ![c] = [present |-> TRUE, d |-> d, assoc |-> "Assoc", bind |-> v, unbind |-> -1]]
+         nx == [cx EXCEPT ![c] = [present |-> TRUE, d |-> d, assoc |-> "Assoc", bind |-> v, unbind |-> -1]]
+     IN /\ ctx' = nx
         /\ mver' = v
+        /\ ord' = Reorder(nx, {x \in CH : nx[x] # ctx[x]})
   /\ Log([act |-> "SetLocation", d |-> d, res |-> "ok",
           sit |-> {"L:" \o ToString(Cardinality(Assoc(ctx, d))) \o ":" \o ToString(Cardinality(Of(d)) > 1) \o ":"
                    \o (IF \E c \in Of(d) : ctx[c].assoc = "Assoc" /\ ctx[c].unbind # -1 THEN "reassociated" ELSE "-")}])
@@ -66,15 +76,16 @@ Apply(cx, props, i, v) ==
 Proposal == [d : Descr, tgt : CH \cup {"new", "unknown"}, assoc : {"Assoc", "Dis", "No"}]
 WellFormed(p) == /\ (p.tgt \in CH => (ctx[p.tgt].present /\ ctx[p.tgt].d = p.d /\ p.assoc \in {"Assoc", "Dis"}))
                  /\ (p.tgt = "new" => p.assoc \in {"Assoc", "No"})
+Rejected(props) == \/ \E i \in 1..Len(props) : props[i].tgt = "unknown"
+                   \/ \E d \in Descr : Cardinality({i \in 1..Len(props) : props[i].d = d /\ props[i].assoc = "Assoc"}) > 1
 \* situation labels of a call (coverage-directed selection of the behaviours that are replayed)
-PropSit(p) == "P:" \o p.d \o ":"
+PropSit(p, rej) == "P:" \o p.d \o ":"
               \o (IF p.tgt \in CH THEN "existing-" \o ctx[p.tgt].assoc \o (IF ctx[p.tgt].unbind # -1 THEN "-unbound" ELSE "")
                   ELSE p.tgt)
               \o ":" \o p.assoc \o ":" \o ToString(Cardinality(Assoc(ctx, p.d)))
-SitOfCall(props) == {PropSit(props[i]) : i \in 1..Len(props)}
+              \o (IF p.assoc = "Assoc" /\ DisBehindAssoc(p.d) /\ ~rej THEN ":dis-behind-assoc" ELSE "")
+SitOfCall(props) == {PropSit(props[i], Rejected(props)) : i \in 1..Len(props)}
                     \cup {"N:" \o ToString(Len(props)) \o ":" \o ToString(Cardinality({props[i].d : i \in 1..Len(props)}))}
-Rejected(props) == \/ \E i \in 1..Len(props) : props[i].tgt = "unknown"
-                   \/ \E d \in Descr : Cardinality({i \in 1..Len(props) : props[i].d = d /\ props[i].assoc = "Assoc"}) > 1
 
 SetContextState(props) ==
   /\ calls < MaxCalls /\ Len(props) \in 1..2
@@ -82,8 +93,9 @@ SetContextState(props) ==
   /\ (Len(props) = 2 => props[1].tgt # props[2].tgt \/ props[1].tgt = "new")
   /\ Cardinality(Free) >= Cardinality({i \in 1..Len(props) : props[i].tgt = "new"})
   /\ IF Rejected(props)
-     THEN UNCHANGED <<ctx, mver>> /\ Log([act |-> "SetContextState", props |-> props, res |-> "rejected", sit |-> SitOfCall(props)])
+     THEN UNCHANGED <<ctx, mver, ord>> /\ Log([act |-> "SetContextState", props |-> props, res |-> "rejected", sit |-> SitOfCall(props)])
      ELSE /\ ctx' = Apply(ctx, props, 1, mver + 1) /\ mver' = mver + 1
+          /\ ord' = Reorder(ctx', {x \in CH : ctx'[x] # ctx[x]} \cup {props[i].tgt : i \in {j \in 1..Len(props) : props[j].tgt \in CH}})
           /\ Log([act |-> "SetContextState", props |-> props, res |-> "ok", sit |-> SitOfCall(props)])
 
 Next == \/ SetLocation("lc")
